@@ -183,6 +183,51 @@ type FV struct {
 	dir      int      // +1 non-decreasing in f, -1 non-increasing, 0 constant
 	mult     float64  // the constant the sample was multiplied by (0: none)
 	desc     string
+	// real-arithmetic reading of the value: slope·f + icpt, and a bound on the
+	// accumulated floating-point rounding error |computed - real| before truncation
+	slope, icpt, err *big.Rat
+}
+
+func rat0() *big.Rat { return new(big.Rat) }
+
+func ratF(f float64) *big.Rat {
+	if math.IsInf(f, 0) || math.IsNaN(f) {
+		return nil
+	}
+	return new(big.Rat).SetFloat64(f)
+}
+
+// maxAbs returns the largest magnitude of the float interval (nil if unbounded).
+func (v FV) maxAbs() *big.Rat {
+	a, b := ratF(v.lo.v), ratF(v.hi.v)
+	if a == nil || b == nil {
+		return nil
+	}
+	a.Abs(a)
+	b.Abs(b)
+	if a.Cmp(b) > 0 {
+		return a
+	}
+	return b
+}
+
+var unitRoundoff64 = new(big.Rat).SetFrac(big.NewInt(1), new(big.Int).Lsh(big.NewInt(1), 53))
+var unitRoundoff32 = new(big.Rat).SetFrac(big.NewInt(1), new(big.Int).Lsh(big.NewInt(1), 24))
+
+// addRounding adds the rounding error of one operation whose result is r (nil err = unknown).
+func addRounding(err *big.Rat, r FV, bits int) *big.Rat {
+	if err == nil {
+		return nil
+	}
+	m := r.maxAbs()
+	if m == nil {
+		return nil
+	}
+	u := unitRoundoff64
+	if bits == 32 {
+		u = unitRoundoff32
+	}
+	return new(big.Rat).Add(err, new(big.Rat).Mul(m, u))
 }
 
 type convSite struct {
@@ -221,7 +266,7 @@ func (ev *floatEval) eval(t *Term) (FV, error) {
 		if !k.Float {
 			return FV{}, e4fail("sample is not floating point")
 		}
-		return FV{k: k, lo: ev.pc.lo, hi: ev.pc.hi, dir: 1, desc: "f"}, nil
+		return FV{k: k, lo: ev.pc.lo, hi: ev.pc.hi, dir: 1, desc: "f", slope: big.NewRat(1, 1), icpt: rat0(), err: rat0()}, nil
 	}
 	switch t.Op {
 	case OpConst:
@@ -230,14 +275,14 @@ func (ev *floatEval) eval(t *Term) (FV, error) {
 			if !ok {
 				return FV{}, e4fail("bad float constant %s", pretty(t))
 			}
-			return FV{k: k, lo: fbound{f, false}, hi: fbound{f, false}, dir: 0, desc: fmt.Sprint(f)}, nil
+			return FV{k: k, lo: fbound{f, false}, hi: fbound{f, false}, dir: 0, desc: fmt.Sprint(f), slope: rat0(), icpt: ratF(f), err: rat0()}, nil
 		}
 		if k.OK {
 			c, ok := bigOf(t.C)
 			if !ok {
 				return FV{}, e4fail("bad constant %s", pretty(t))
 			}
-			return FV{isInt: true, k: k, ilo: c, ihi: c, dir: 0, desc: c.String()}, nil
+			return FV{isInt: true, k: k, ilo: c, ihi: c, dir: 0, desc: c.String(), slope: rat0(), icpt: new(big.Rat).SetInt(c), err: rat0()}, nil
 		}
 	case OpConv:
 		a, err := ev.eval(t.Args[0])
@@ -255,6 +300,7 @@ func (ev *floatEval) eval(t *Term) (FV, error) {
 			a.k = k
 			a.lo = fbound{float64(float32(a.lo.v)), false}
 			a.hi = fbound{float64(float32(a.hi.v)), false}
+			a.err = addRounding(a.err, a, 32)
 			return a, nil
 		case !a.isInt && k.OK && !k.Float:
 			return ev.toInt(a, k, t)
@@ -274,7 +320,7 @@ func (ev *floatEval) eval(t *Term) (FV, error) {
 			if k.Bits == 32 {
 				f = float64(float32(f))
 			}
-			return FV{k: k, lo: fbound{f, false}, hi: fbound{f, false}, desc: fmt.Sprint(f)}, nil
+			return FV{k: k, lo: fbound{f, false}, hi: fbound{f, false}, desc: fmt.Sprint(f), slope: rat0(), icpt: ratF(f), err: rat0()}, nil
 		}
 	case OpNeg:
 		a, err := ev.eval(t.Args[0])
@@ -284,7 +330,11 @@ func (ev *floatEval) eval(t *Term) (FV, error) {
 		if a.isInt {
 			return FV{}, e4fail("integer negation in a float kernel: %s", pretty(t))
 		}
-		return FV{k: k, lo: fbound{-a.hi.v, a.hi.strict}, hi: fbound{-a.lo.v, a.lo.strict}, dir: -a.dir, mult: -a.mult, desc: "-(" + a.desc + ")"}, nil
+		r := FV{k: k, lo: fbound{-a.hi.v, a.hi.strict}, hi: fbound{-a.lo.v, a.lo.strict}, dir: -a.dir, mult: -a.mult, desc: "-(" + a.desc + ")", err: a.err}
+		if a.slope != nil && a.icpt != nil {
+			r.slope, r.icpt = new(big.Rat).Neg(a.slope), new(big.Rat).Neg(a.icpt)
+		}
+		return r, nil
 	case OpMul:
 		a, err := ev.eval(t.Args[0])
 		if err != nil {
@@ -321,6 +371,16 @@ func (ev *floatEval) eval(t *Term) (FV, error) {
 			r.mult = c
 		} else {
 			r.mult = a.mult * c
+		}
+		if a.slope != nil && a.icpt != nil {
+			cr := ratF(c)
+			r.slope, r.icpt = new(big.Rat).Mul(a.slope, cr), new(big.Rat).Mul(a.icpt, cr)
+		}
+		if a.err != nil {
+			r.err = new(big.Rat).Mul(a.err, ratF(c))
+			if !isP2(c) {
+				r.err = addRounding(r.err, r, k.Bits)
+			}
 		}
 		return r, nil
 	case OpAdd, OpSub:
@@ -363,7 +423,16 @@ func (ev *floatEval) eval(t *Term) (FV, error) {
 			if lo.Cmp(mn) < 0 || hi.Cmp(mx) > 0 {
 				return FV{}, e4fail("integer arithmetic leaves the range of the %d-bit %s type ([%s,%s]): %s", k.Bits, signName(k), lo, hi, pretty(t))
 			}
-			return FV{isInt: true, k: k, ilo: lo, ihi: hi, dir: dir, mult: a.mult + b.mult, desc: fmt.Sprintf("(%s)%s(%s)", a.desc, opNames[t.Op], b.desc)}, nil
+			r := FV{isInt: true, k: k, ilo: lo, ihi: hi, dir: dir, mult: a.mult + b.mult, desc: fmt.Sprintf("(%s)%s(%s)", a.desc, opNames[t.Op], b.desc)}
+			if a.slope != nil && b.slope != nil && a.icpt != nil && b.icpt != nil && a.err != nil && b.err != nil {
+				if t.Op == OpAdd {
+					r.slope, r.icpt = new(big.Rat).Add(a.slope, b.slope), new(big.Rat).Add(a.icpt, b.icpt)
+				} else {
+					r.slope, r.icpt = new(big.Rat).Sub(a.slope, b.slope), new(big.Rat).Sub(a.icpt, b.icpt)
+				}
+				r.err = new(big.Rat).Add(a.err, b.err)
+			}
+			return r, nil
 		}
 		// float add/sub of a constant
 		if b.dir != 0 || b.lo.v != b.hi.v {
@@ -374,7 +443,12 @@ func (ev *floatEval) eval(t *Term) (FV, error) {
 			c = -c
 		}
 		sh := func(x fbound) fbound { return fbound{x.v + c, false} }
-		return FV{k: k, lo: sh(a.lo), hi: sh(a.hi), dir: a.dir, mult: a.mult, desc: fmt.Sprintf("(%s)+%v", a.desc, c)}, nil
+		r := FV{k: k, lo: sh(a.lo), hi: sh(a.hi), dir: a.dir, mult: a.mult, desc: fmt.Sprintf("(%s)+%v", a.desc, c)}
+		if a.slope != nil && a.icpt != nil {
+			r.slope, r.icpt = a.slope, new(big.Rat).Add(a.icpt, ratF(c))
+		}
+		r.err = addRounding(a.err, r, k.Bits)
+		return r, nil
 	case OpIte:
 		return FV{}, e4fail("conditional value inside the kernel: %s", pretty(t))
 	}
@@ -431,7 +505,7 @@ func (ev *floatEval) toInt(a FV, k numKind, t *Term) (FV, error) {
 	if a.dir < 0 {
 		// interval ends are still lo<=hi
 	}
-	return FV{isInt: true, k: k, ilo: lo, ihi: hi, dir: a.dir, mult: a.mult, desc: fmt.Sprintf("trunc(%s)", a.desc)}, nil
+	return FV{isInt: true, k: k, ilo: lo, ihi: hi, dir: a.dir, mult: a.mult, desc: fmt.Sprintf("trunc(%s)", a.desc), slope: a.slope, icpt: a.icpt, err: a.err}, nil
 }
 
 // splitF narrows the float piece by a condition f ⋈ const; ok=false when the condition is not of that form.
